@@ -1,7 +1,7 @@
 //! Word expansion utilities.
 
 use std::borrow::Cow;
-use std::cmp::min;
+use std::cmp::{max, min};
 use std::io::Write as _;
 
 use brush_parser::word::{ParameterTransformOp, SubstringMatchKind};
@@ -331,11 +331,10 @@ impl ExpansionPiece {
         }
     }
 
-    const fn len(&self) -> usize {
-        match self {
-            Self::Unsplittable(s) => s.len(),
-            Self::Splittable(s) => s.len(),
-        }
+    /// Returns the length of the piece in characters (the unit of `${#v}` and of
+    /// substring offsets), not bytes.
+    fn len(&self) -> usize {
+        self.as_str().chars().count()
     }
 
     fn make_unsplittable(self) -> Self {
@@ -1365,6 +1364,10 @@ impl<'a, SE: extensions::ShellExtensions> WordExpander<'a, SE> {
                 let expanded_parameter_len = expanded_parameter.polymorphic_len() as i64;
                 let mut expanded_offset = offset.eval(self.shell, self.params, false).await?;
 
+                // A start beyond either end of the value selects the empty string.
+                let offset_out_of_range = expanded_offset > expanded_parameter_len
+                    || expanded_offset + expanded_parameter_len < 0;
+
                 // We handle negative indexes as offsets from the end of the element, with -1
                 // referencing the last element.
                 if expanded_offset < 0 {
@@ -1381,15 +1384,30 @@ impl<'a, SE: extensions::ShellExtensions> WordExpander<'a, SE> {
                 let expanded_offset = min(expanded_offset, expanded_parameter_len);
 
                 let end_offset = if let Some(length) = length {
-                    let mut expanded_length = length.eval(self.shell, self.params, false).await?;
-                    if expanded_length < 0 {
-                        expanded_length += expanded_parameter_len;
+                    let expanded_length = length.eval(self.shell, self.params, false).await?;
+                    if expanded_length < 0 && !expanded_parameter.from_array {
+                        // A negative length is an offset from the end of the value, which
+                        // must not precede the start of the substring (a start beyond either
+                        // end of the value has already selected the empty string).
+                        let end_offset = expanded_parameter_len + expanded_length;
+                        if offset_out_of_range {
+                            expanded_offset
+                        } else if end_offset < expanded_offset {
+                            return Err(error::ErrorKind::BadSubstitution(std::format!(
+                                "{expanded_length}: substring expression < 0"
+                            ))
+                            .into());
+                        } else {
+                            end_offset
+                        }
+                    } else {
+                        let expanded_length = min(
+                            max(expanded_length, 0),
+                            expanded_parameter_len - expanded_offset,
+                        );
+
+                        expanded_offset + expanded_length
                     }
-
-                    let expanded_length =
-                        min(expanded_length, expanded_parameter_len - expanded_offset);
-
-                    expanded_offset + expanded_length
                 } else {
                     expanded_parameter_len
                 };
